@@ -498,6 +498,9 @@ impl Instance {
             .iter_mut()
             .find(|c| c.id == constraint_id)
             .with_context(|| format!("Constraint ID {} not found", constraint_id))?;
+        if constraint.equality() != Equality::LessThanOrEqualToZero {
+            bail!("The constraint is not inequality: ID={}", constraint_id);
+        }
         let function = constraint
             .function
             .as_ref()
